@@ -4,7 +4,7 @@ PROPS = {
     'C13': dict(
         title='Optimised hashing and the transcript sponge equal their specification',
         design_ref='DESIGN.md section 4 / C13',
-        bounded=[('plonky2', ['c13_'])],
+        bounded=[('plonky2', ['c13_', 'c04_challenger'])],
         vspecs=['contracts/C13/poseidon_mds.vspec', 'contracts/C13/poseidon_partial.vspec', 'contracts/C13/hashing.vspec', 'contracts/C04/challenger.vspec'],
         level_text='Unbounded deductive proof (Verus/Z3) that (i) the frequency-domain MDS multiplication (fft4/ifft4, block1-3, mds_multiply_freq) computes the '
                    'exact integer circulant product and the Goldilocks mds_layer returns, for ALL 2^64 representations of every state element, the published '
@@ -39,18 +39,19 @@ PROPS = {
         title='Every value a gate computes is pinned by that gate\'s constraints',
         design_ref='DESIGN.md section 4 / C07',
         bounded=[('plonky2', ['c07_'])],
-        vspecs=['contracts/C07/arithmetic_base.vspec', 'contracts/C07/constant.vspec', 'contracts/C07/exponentiation.vspec', 'contracts/C02/gate_constraints.vspec'],
+        vspecs=['contracts/C07/arithmetic_base.vspec', 'contracts/C07/constant.vspec', 'contracts/C07/exponentiation.vspec', 'contracts/C07/filtered_circuit.vspec', 'contracts/C02/gate_constraints.vspec'],
         level_text='Unbounded deductive proof (Verus/Z3), for ArithmeticGate, ConstantGate and ExponentiationGate in every parameterisation (symbolic num_ops / num_consts / num_power_bits) over an '
                    'abstract commutative ring, that the extension-field, packed/base and in-circuit evaluators all return ONE ring-generic specification '
                    'expression per constraint, exactly num_constraints() of them, with all wire indexing in bounds; plus the pinning lemma (constraint zero '
                    '<==> output wire equals the computed value; for ExponentiationGate the n+1-th constraint output - mid[n-1] and the square-and-multiply chain, most significant bit first). The other gates, the filtered in-circuit evaluator and the generators are covered by a bounded stand-in '
-                   'only (labelled bounded); Gate::eval_filtered (native filter plumbing: selector column, `num_selectors > 1`, prefix removal) is proved in the shared unit gate_constraints.',
+                   'only (labelled bounded); Gate::eval_filtered and Gate::eval_filtered_circuit (filter plumbing: selector column, `num_selectors > 1`, removal of both constant prefixes, '
+                   'accumulation filter*c + acc) are proved against ONE uninterpreted filter function (units gate_constraints, filtered_circuit).',
         level_note='Trusted: Verus+Z3; abstract ring for scalar/extension/packed fields (T6); CircuitBuilder arithmetic contracts (T10d). Other gates '
                    '(BaseSum, Exponentiation, RandomAccess, Reducing*, MulExtension, ArithmeticExtension, Poseidon*, CosetInterpolation, Lookup*) and '
-                   'eval_filtered_circuit/compute_filter: bounded harness only (c07_gates: 18 gate instances x {standard, 37-routed-wire} configuration: extension vs '
+                   'compute_filter / compute_filter_circuit (iterator products): bounded harness only (c07_gates: 18 gate instances x {standard, 37-routed-wire} configuration: extension vs '
                    'base-batch vs in-circuit evaluators incl. filtered with 1 and 2 selectors, declared constraint count, and for every wire a generator writes: the '
                    'generated row satisfies the gate and the wire cannot be changed by +1, -1, 12345 without violating a constraint).',
-        remainder=['all gates other than ArithmeticGate, ConstantGate and ExponentiationGate (bounded harness only)', 'generators run_once (closures over the witness)', 'eval_filtered_circuit / compute_filter'],
+        remainder=['all gates other than ArithmeticGate, ConstantGate and ExponentiationGate (bounded harness only)', 'generators run_once (closures over the witness)', 'compute_filter / compute_filter_circuit (assumed to denote the same function)'],
     ),
     'C09': dict(
         title='STARK proofs are accepted exactly for traces that satisfy the constraints',
@@ -73,9 +74,10 @@ PROPS = {
         title='Transforms and polynomial algebra agree with their definitions',
         design_ref='DESIGN.md section 4 / C15',
         bounded=[('field', ['c15_']), ('util', ['c15_'])],
-        vspecs=['contracts/C15/util_log2.vspec'],
+        vspecs=['contracts/C15/util_log2.vspec', 'contracts/C15/poly_len.vspec'],
         level_text='Unbounded deductive proof (Verus/Z3) of log2_strict (result r with n == 2^r for every power of two; its internal assertion and its unchecked '
-                   '`assume` are discharged). FFT == direct evaluation, inverse/coset variants, zero-tail and root-table options, multiplication, division, '
+                   '`assume` are discharged) and of PolynomialCoeffs::pad / trim_to_len (padding never drops a coefficient; trimming succeeds exactly when only zero '
+                   'coefficients are cut off). FFT == direct evaluation, inverse/coset variants, zero-tail and root-table options, multiplication, division, '
                    'interpolation, bit reversal and transposes are covered by a bounded stand-in only (roots-of-unity developments are days of proof '
                    'engineering; see DESIGN.md).',
         level_note='Trusted: Verus+Z3; usize::trailing_zeros std semantics. Everything except log2_strict is BOUNDED evidence (sizes 1..256, random and boundary '
@@ -86,11 +88,13 @@ PROPS = {
         title='Merkle commitments open only to the committed leaf at the committed position',
         design_ref='DESIGN.md section 4 / C12',
         bounded=[('plonky2', ['c12_'])],
-        vspecs=['contracts/C12/merkle_verify.vspec', 'contracts/C12/merkle_types.vspec'],
+        vspecs=['contracts/C12/merkle_verify.vspec', 'contracts/C12/merkle_types.vspec', 'contracts/C12/merkle_prove.vspec', 'contracts/C13/hashing.vspec'],
         level_text='Unbounded deductive proof (Verus/Z3), over an uninterpreted hasher, that the real verify_batch_merkle_proof_to_cap / '
                    'verify_merkle_proof_to_cap return Ok exactly when the textbook path fold of the leaf digest with the siblings, directed by the '
                    'index bits, equals the cap entry addressed by the remaining index bits; all indexing and the height countdown are proved panic-free '
-                   'under the stated shape preconditions.',
+                   'under the stated shape preconditions. merkle_tree_prove (opening side): for every leaf position of every tree of up to 2^40 leaves and every cap '
+                   'height, all indices into the interleaved digest buffer are in range, one sibling per layer is returned, and sibling i is the OTHER element of the '
+                   'pair above the leaf in layer i, taken from the sub-tree of the cap entry of that leaf.',
         level_note='Trusted: Verus+Z3; hasher functions uninterpreted (binding itself is the collision-resistance argument, outside the family); '
                    'Vec/slice std specs. Not covered: MerkleTree::new / fill_subtree (MaybeUninit + rayon), batch trees, thread schedules.',
         remainder=['MerkleTree::new, fill_subtree, fill_digests_buf (MaybeUninit, split_at_mut, rayon join): outside the Verus subset',
@@ -100,7 +104,7 @@ PROPS = {
     'C04': dict(
         title='Fiat-Shamir challenges depend on the whole statement and prior transcript',
         design_ref='DESIGN.md section 4 / C04',
-        bounded=[('plonky2', ['c04_'])],
+        bounded=[('plonky2', ['c04_']), ('starky', ['c04_'])],
         vspecs=['contracts/C04/challenger.vspec', 'contracts/C04/transcript.vspec'],
         level_text='Unbounded deductive proof (Verus/Z3) that (i) every Challenger method implements the overwrite-mode duplex sponge state machine '
                    '(absorbing invalidates buffered outputs; a challenge is drawn only after pending inputs were duplexed), and (ii) get_challenges / '
@@ -111,8 +115,8 @@ PROPS = {
         level_note='Trusted: Verus+Z3; the sponge permutation is uninterpreted (that altering an absorbed element changes later challenges is the '
                    'random-oracle reading of the permutation, outside the family); FriReductionStrategy::serialize, to_fri_openings, Vec::drain/iter::repeat '
                    'adaptors assumed. Not covered: the PROVER transcript in prove_with_partition_witness (rayon/timing macros; agreement with the verifier '
-                   'is what the positive tests establish), RecursiveChallenger, STARK get_challenges.',
-        remainder=['prover-side transcript (plonk/prover.rs, fri/prover.rs)', 'RecursiveChallenger and in-circuit get_challenges', 'starky get_challenges'],
+                   'is what the positive tests establish), RecursiveChallenger. STARK get_challenges: bounded harness only (c04_stark_transcript: 15+ message / parameter alterations, each must change every later challenge group and no earlier one).',
+        remainder=['prover-side transcript (plonk/prover.rs, fri/prover.rs)', 'RecursiveChallenger and in-circuit get_challenges', 'starky get_challenges (bounded harness only)'],
     ),
     'C05': dict(
         title='FRI opening proofs attest only true evaluations of low-degree polynomials',
@@ -134,7 +138,7 @@ PROPS = {
     'C03': dict(
         title='Accepted proofs are bound to each of their elements and to their circuit',
         design_ref='DESIGN.md section 4 / C03',
-        bounded=[('plonky2', ['c03_'])],
+        bounded=[('plonky2', ['c03_', 'c04_'])],
         vspecs=['contracts/C03/plonk_verifier.vspec', 'contracts/C05/fri_verifier.vspec', 'contracts/C18/fri_shape.vspec', 'contracts/C12/merkle_verify.vspec',
                 'contracts/C04/transcript.vspec', 'contracts/C04/challenger.vspec'],
         level_text='Unbounded deductive proof (Verus/Z3) of the acceptance skeleton of the real verifier code: verify() returns Ok only if shape validation '
@@ -167,9 +171,9 @@ PROPS = {
         bounded=[('plonky2', ['c17_', 'c18_c17_'])],
         bounded_thorough=[('plonky2', ['t17_'])],
         vspecs=['contracts/C17/serialization.vspec'],
-        level_text='Unbounded deductive proof (Verus/Z3) for the primitive readers/writers (u8, bool, u32, usize, field): write_T appends exactly enc_T(x); read_T '
+        level_text='Unbounded deductive proof (Verus/Z3) for the primitive readers/writers (u8, bool, u32, usize, field) and the vector ones (usize_vec, field_vec): write_T appends exactly enc_T(x); read_T '
                    'consumes exactly those bytes, fails exactly on short input (read_bool also on bytes > 1), never panics; lemmas read_T(write_T(x) ++ tail) '
-                   '== (x, tail). Composite readers/writers, the tag registries and "a restored circuit proves interchangeably" are covered by a bounded '
+                   '== (x, tail), for field vectors of every length. Composite readers/writers, the tag registries and "a restored circuit proves interchangeably" are covered by a bounded '
                    'stand-in only.',
         level_note='Trusted: Verus+Z3; vstd::bytes little-endian specs for from_le_bytes/to_le_bytes; abstract Read/Write. Composite encoders (read_proof, '
                    'read_common_circuit_data, per-gate and per-generator pairs): bounded harness only (4 circuit families incl. 256-entry lookup tables '
@@ -194,7 +198,7 @@ PROPS = {
         title='No accepted proof exists for an assignment that violates the circuit',
         design_ref='DESIGN.md section 4 / C02',
         bounded=[('plonky2', ['c02_'])],
-        vspecs=['contracts/C02/gate_constraints.vspec', 'contracts/C02/forest.vspec', 'contracts/C02/partial_products.vspec', 'contracts/C03/plonk_verifier.vspec', 'contracts/C08/lookup_selectors.vspec'],
+        vspecs=['contracts/C02/gate_constraints.vspec', 'contracts/C02/forest.vspec', 'contracts/C02/partial_products.vspec', 'contracts/C15/poly_len.vspec', 'contracts/C03/plonk_verifier.vspec', 'contracts/C08/lookup_selectors.vspec'],
         level_text='Unbounded deductive proof (Verus/Z3) of three of the mechanisms the property names: (i) evaluate_gate_constraints returns, in every '
                    'slot j, the sum over EVERY gate type of the circuit of that gate\'s j-th filtered constraint, each taken with its own selector column '
                    'and group range (no gate skipped, nothing overwritten), and Gate::eval_filtered multiplies the gate\'s own evaluator (run on the '
@@ -204,7 +208,8 @@ PROPS = {
                    'behind the copy classes: add creates a singleton class, find returns the representative and changes no class (path compression), merge unites '
                    'EXACTLY the two classes named and no other, compress_paths leaves every parent pointer equal to its representative (what wire_partition '
                    'assumes), all for arbitrary forests with termination proved; Target::index is the row-major grid index; (v) partial_products_and_z_gx '
-                   'returns Z(x) times the running chunk products (last entry = Z(gx)) and num_partial_products = ceil(n/max_degree) - 1. '
+                   'returns Z(x) times the running chunk products (last entry = Z(gx)) and num_partial_products = ceil(n/max_degree) - 1; trim_to_len (the quotient '
+                   'truncation in the prover) fails unless only zero coefficients are cut. '
                    'The soundness argument over these mechanisms, the permutation argument and the adversarial-prover half are covered by a bounded '
                    'stand-in only.',
         level_note='Trusted: Verus+Z3; Gate::eval_unfiltered and compute_filter as uninterpreted functions (T10); dyn-Gate dispatch to the default '
@@ -213,7 +218,7 @@ PROPS = {
                    'prove_with_partition_witness, with an independent native oracle deciding whether the assignment violates the circuit. Degenerate '
                    'strategies that need prover hooks (all-zero Z, altered quotient) are NOT exercised.',
         remainder=['PLONK soundness (Schwartz-Zippel) over the checked identities', 'permutation argument: wire_partition / get_sigma_map / get_sigma_polys (HashMap code; bounded harness only)',
-                   'eval_vanishing_poly: L_0 term, check_partial_products (tuple_windows / zip_eq; bounded harness only)', 'PartitionWitness::set_target_returning_rep',
+                   'eval_vanishing_poly: L_0 term, check_partial_products (tuple_windows / zip_eq; bounded harness only)', 'PartitionWitness::set_target_returning_rep (mutable reference into a Vec element; bounded harness only)',
                    'adversarial strategies needing prover hooks (all-zero Z, per-challenge quotient alteration): not exercised'],
     ),
     'C08': dict(
